@@ -171,6 +171,7 @@ def check(case, stats):
                     ante_part[i] += o.bets[i]
     ref_pots = refaward.build_pots(collected, ante_part, live,
                                    s.ante_trimming_status)
+    orphan = refaward.build_pots.orphan
     eng_pots = pre['pots']
     rk = _rake_cfg(cfg)
     if nlive >= 2:
@@ -252,7 +253,9 @@ def check(case, stats):
             wj = collected[j] - (zero if s.ante_trimming_status
                                  else ante_part[j])
             cap_i += min(wi, wj)
-        if nlive >= 2 and received[i] - cap_i > tol:
+        # (not demanded when a contribution level lost all its live
+        # contributors - gratuitous folds, mucks - and joined the pot below)
+        if nlive >= 2 and not orphan and received[i] - cap_i > tol:
             out.append(V(ID, 'wins_more_than_matched', '',
                          f'player {i} receives {received[i]} > {cap_i}'))
             return out
